@@ -51,6 +51,9 @@ func gen(r *rand.Rand, idx int, tier string) Input {
 	flat := []stor.SeriesDef{}
 	for a := 0; a < napps; a++ {
 		app := stor.UniqueApp("del", idx, a)
+		if a == 1 && r.Intn(3) == 0 { // the second application's name extends the first one's (web / web.worker)
+			app = all[0][0].App + lib.Pick(r, []string{".worker", "2", "-b"})
+		}
 		ss := stor.RandSeries(r, app, 2+r.Intn(2)+2*(2-napps))
 		all = append(all, ss)
 		flat = append(flat, ss...)
